@@ -8,6 +8,7 @@ open GlueVerif.C09
 #print axioms polygon_cat_cat
 #print axioms polygonised_cat_num
 #print axioms polygon_cat_num
+#print axioms rect_rotated_cat_num
 #print axioms numeric_numeric
 #print axioms category_order_irrelevant
 #print axioms categories_ok
